@@ -1,5 +1,64 @@
-(* C11 - placeholder until Render/CancelSem.v is integrated *)
-From LF Require Import Render.Cancel.
-Theorem C11_exited_absorbing : forall d c, wstep d c Exited = Exited.
-Proof. reflexivity. Qed.
-Print Assumptions C11_exited_absorbing.
+(* C11 — cancellation yields nothing or a complete result, and always terminates.
+   Statements only; model in Render/Cancel.v (its header maps it to worker_pool.inl,
+   dual.hpp, simplex_tree.inl and mesh.cpp), proofs in Render/CancelSem.v. *)
+From Coq Require Import List Arith.
+From LF Require Import Render.Progress Render.Cancel Render.CancelSem.
+Import ListNotations.
+
+(* every processing order that any schedule of any number of workers can produce visits each
+   cell at most once, only cells of the tree, and a cell only after its (ambiguous) parent *)
+Theorem C11_sched_sound : forall c proc, sched c proc ->
+  NoDup proc /\ incl proc (cells c) /\
+  (forall p, In p proc -> p <> [] -> exists a b, proc = a ++ p :: b /\ In (parent p) a).
+Proof.
+  intros c proc H. destruct (sched_sound c proc H) as [H1 H2]. split; [exact H1|]. split; [exact H2|].
+  intros p Hp Hne. destruct (sched_parent_before c proc H p Hp Hne) as (a & b & E & Hin & _).
+  exists a, b; split; assumption.
+Qed.
+
+(* NO DEADLOCK: while some cell is unprocessed a task is available *)
+Theorem C11_no_deadlock : forall c proc, sched c proc -> length proc < length (cells c) -> frontier c proc <> [].
+Proof. exact sched_progress. Qed.
+
+(* BOUNDED WORK: at most (number of cells) task steps, and every run can be completed *)
+Theorem C11_bounded_work : forall c proc, sched c proc ->
+  length proc <= length (cells c) /\
+  exists rest, sched c (proc ++ rest) /\ length (proc ++ rest) = length (cells c).
+Proof. intros c proc H; split; [apply sched_bounded; exact H | apply sched_extend; exact H]. Qed.
+
+(* the done flag is raised exactly when every cell has been processed: never early (no worker
+   leaves while work remains), always at the end (every worker leaves): an uncancelled render
+   terminates with its structure complete, under every schedule *)
+Theorem C11_done_exactly_at_end : forall c proc, sched c proc ->
+  (done_flag c proc = true <-> length proc = length (cells c)).
+Proof. exact done_iff_all. Qed.
+
+(* once the cancel flag (or done) is set every worker is out of its loop after finishing at
+   most the body it is in; while neither is set no worker leaves *)
+Theorem C11_workers_exit : 
+  (forall done pc, exists n, n <= 2 /\ Nat.iter n (wstep done true) pc = Exited) /\
+  (forall cancel pc, exists n, n <= 2 /\ Nat.iter n (wstep true cancel) pc = Exited) /\
+  (forall n pc, pc <> Exited -> Nat.iter n (wstep false false) pc <> Exited).
+Proof. split; [exact cancel_exits|]. split; [exact done_exits | exact no_exit_iter]. Qed.
+
+(* the repaired Mesh::render: wherever the flag is raised, the result is no mesh or a mesh
+   whose index assignment and dual walk both ran to completion *)
+Theorem C11_all_or_nothing : forall r, run_ok r -> all_or_nothing (render_new r).
+Proof. exact render_new_all_or_nothing. Qed.
+
+Theorem C11_uncancelled_gives_mesh : forall r, run_ok r -> r_flag_final r = false -> r_build r = Complete ->
+  render_new r = MeshOf Complete Complete.
+Proof. exact render_new_complete_when_uncancelled. Qed.
+
+(* the code before the repair returned the partial mesh of a cancelled walk / index assignment *)
+Theorem C11_old_code_refuted : exists r, run_ok r /\ ~ all_or_nothing (render_old r).
+Proof. exact render_old_refuted. Qed.
+
+Print Assumptions C11_sched_sound.
+Print Assumptions C11_no_deadlock.
+Print Assumptions C11_bounded_work.
+Print Assumptions C11_done_exactly_at_end.
+Print Assumptions C11_workers_exit.
+Print Assumptions C11_all_or_nothing.
+Print Assumptions C11_uncancelled_gives_mesh.
+Print Assumptions C11_old_code_refuted.
